@@ -52,6 +52,8 @@ const (
 	kNil
 	kPriv  // a private copy of pooled bytes
 	kTuple // several results of an inlined call
+	kFresh // memory the request allocated itself (make / new) and values grown from it: no pooled object,
+	// but owned by the request -- it may be stored into a pooled cell (*bp = b after b = make(...))
 )
 
 type aval struct {
@@ -103,6 +105,9 @@ type state struct {
 	cnt     bool
 	retvals []*aval
 	stack   []string // functions being inlined
+	// a panic unwinds: no further statement of any frame runs (in particular the assignment the
+	// panicking call stood in does not happen), the deferred calls of every frame do
+	panicked bool
 }
 
 func (s *state) clone() *state {
@@ -125,7 +130,7 @@ func (s *state) clone() *state {
 		}
 		return b
 	}
-	n := &state{env: map[string]*aval{}, nvar: s.nvar, ntok: s.ntok, defers: map[int][]ast.Node{}, ret: s.ret, brk: s.brk, cnt: s.cnt}
+	n := &state{env: map[string]*aval{}, nvar: s.nvar, ntok: s.ntok, defers: map[int][]ast.Node{}, ret: s.ret, brk: s.brk, cnt: s.cnt, panicked: s.panicked}
 	for k, a := range s.env {
 		n.env[k] = cp(a)
 	}
@@ -382,7 +387,7 @@ func (s *state) signature() string {
 	for _, k := range keys {
 		sb.WriteString(k + "=" + sig(s.env[k], seen) + ";")
 	}
-	fmt.Fprintf(&sb, "%v %v %v %d|", s.ret, s.brk, s.cnt, len(s.retvals))
+	fmt.Fprintf(&sb, "%v %v %v %v %d|", s.ret, s.brk, s.cnt, s.panicked, len(s.retvals))
 	for _, a := range s.retvals {
 		sb.WriteString(sig(a, map[*aval]bool{}) + ",")
 	}
@@ -639,12 +644,15 @@ func (in *interp) call(st *state, fr *frame, c *ast.CallExpr) []sv {
 			}
 			return out
 		case "make", "new":
-			return []sv{{st, none}}
+			return []sv{{st, &aval{kind: kFresh}}}
 		case "panic", "print", "println", "min", "max", "delete", "close", "clear":
 			var out []sv
 			for _, r := range in.evalList(st, fr, c.Args) {
 				for _, a := range r.vs {
 					in.escape(r.st, a, c, f.Name)
+				}
+				if f.Name == "panic" {
+					r.st.ret, r.st.retvals, r.st.panicked = true, nil, true
 				}
 				out = append(out, sv{r.st, none})
 			}
@@ -662,6 +670,8 @@ func (in *interp) call(st *state, fr *frame, c *ast.CallExpr) []sv {
 				}
 				if dst.kind == kObj {
 					in.use(r.st, dst, "W", c, "append")
+					out = append(out, sv{r.st, dst})
+				} else if dst.kind == kFresh {
 					out = append(out, sv{r.st, dst})
 				} else {
 					out = append(out, sv{r.st, none})
@@ -805,6 +815,15 @@ func (in *interp) call(st *state, fr *frame, c *ast.CallExpr) []sv {
 			if recvExpr != nil && (recv == nil || (recv.kind != kObj && recv.kind != kStruct)) && contractNames[name] {
 				cands = nil
 			}
+			// a method M that calls x.field.M(...) delegates to the implementation it wraps (e.g.
+			// CodecProto.MarshalAppend -> c.MarshalOptions.MarshalAppend): a library call, not the
+			// sibling implementations of the package's own interface
+			if _, isSel := recvExpr.(*ast.SelectorExpr); isSel && len(r.st.stack) > 0 &&
+				strings.HasSuffix(r.st.stack[len(r.st.stack)-1], "."+name) {
+				if _, wl := whitelist[name]; wl {
+					cands = nil
+				}
+			}
 		}
 		var usable []*ast.FuncDecl
 		for _, fd := range cands {
@@ -841,7 +860,11 @@ func (in *interp) call(st *state, fr *frame, c *ast.CallExpr) []sv {
 			continue
 		}
 		if !interesting {
-			out = append(out, sv{r.st, none})
+			res := none
+			if eff, ok := whitelist[name]; ok && eff.result == "arg0" && len(args) > 0 && args[0].kind == kFresh {
+				res = args[0] // MarshalAppend(b, m), AppendVarint(b, n) on the request's own memory
+			}
+			out = append(out, sv{r.st, res})
 			continue
 		}
 		eff, ok := whitelist[qual+name]
@@ -1130,7 +1153,7 @@ func (in *interp) inline(st *state, fd *ast.FuncDecl, recv *aval, args []*aval, 
 					}
 				}
 			}
-			s.ret, s.brk, s.cnt, s.retvals = false, false, false, nil
+			s.ret, s.brk, s.cnt, s.retvals = s.panicked, false, false, nil
 			s.stack = s.stack[:len(s.stack)-1]
 			for k := range s.env {
 				if strings.HasPrefix(k, fmt.Sprintf("%d:", fr.id)) {
@@ -1278,7 +1301,7 @@ func (in *interp) assign(st *state, fr *frame, lhs ast.Expr, rhs *aval, define b
 				return
 			}
 			st.env[key] = rhs
-		case kStruct, kPriv, kNil:
+		case kStruct, kPriv, kNil, kFresh:
 			st.env[key] = rhs
 		default:
 			if had {
@@ -1289,8 +1312,14 @@ func (in *interp) assign(st *state, fr *frame, lhs ast.Expr, rhs *aval, define b
 		// *bp = b : the pooled cell takes the (possibly grown) slice
 		base := in.quiet(st, fr, l.X)
 		if base.kind == kObj {
-			if rhs.kind == kObj && rhs.tok != base.tok {
+			switch {
+			case rhs.kind == kObj && rhs.tok != base.tok:
 				in.escape(st, rhs, at, "stored inside another pooled object")
+			case rhs.kind == kObj, rhs.kind == kPriv, rhs.kind == kNil, rhs.kind == kFresh:
+				// its own (possibly grown) slice, memory this request made, or nothing
+			default:
+				// memory of unknown owner (a handler's message, a caller's buffer) would enter the pool
+				in.escape(st, base, at, "memory the request does not own stored into a pooled object")
 			}
 			return
 		}
@@ -1342,6 +1371,10 @@ func (in *interp) stmt(s ast.Stmt, st *state, fr *frame) []*state {
 		if len(t.Rhs) == 1 && len(t.Lhs) >= 1 {
 			var out []*state
 			for _, r := range in.eval(st, fr, t.Rhs[0]) {
+				if r.st.panicked {
+					out = append(out, r.st) // the call panicked: nothing is assigned
+					continue
+				}
 				// element / compound stores read the left side first
 				if r.v.kind == kTuple {
 					for i, l := range t.Lhs {
@@ -1507,7 +1540,7 @@ func (in *interp) stmt(s ast.Stmt, st *state, fr *frame) []*state {
 				if cond != nil {
 					c = in.eval(c, fr, cond)[0].st
 				}
-				if cond != nil || iter > 0 {
+				if cond != nil {
 					done = append(done, c.clone()) // the loop ends here
 				}
 				for _, o := range in.block(body.List, []*state{c}, fr) {
@@ -1529,7 +1562,11 @@ func (in *interp) stmt(s ast.Stmt, st *state, fr *frame) []*state {
 			}
 			cur = in.check(next)
 		}
-		done = append(done, cur...)
+		if cond != nil {
+			done = append(done, cur...)
+		}
+		// (a `for { }` without condition is left by return or break only: the paths still inside it
+		// after two rounds repeat the events of the second round and are not continued past the loop)
 		return in.check(done)
 	case *ast.SwitchStmt, *ast.TypeSwitchStmt, *ast.SelectStmt:
 		var body *ast.BlockStmt
